@@ -6,7 +6,7 @@
   names, list order or the order in which a connection lists its two blocks.
 -/
 import PyTough.Proofs.GridPhys
-import PyTough.Proofs.GridMincSpec
+import PyTough.Proofs.GridMincAll
 import PyTough.Props.C08
 namespace Props.C09
 open Py Model Model.Grid Model.Grid.World
@@ -116,9 +116,50 @@ theorem minc_levels_spec (args : MincArgs) (blkname : Name) (origVol : Rat) (ori
     (∀ i (hi : i < vfs.length), (w'.bk (w.blks.length + i)).volume = origVol * vfs[i] ∧
         (w'.bk (w.blks.length + i)).name = matrixBlockname blkname (m0 + i + 1)) ∧
     w'.connectionlist = w.connectionlist ++ List.range' w.cons.length vfs.length ∧
-    w'.cons = w.cons ++ Proofs.Grid.mincChain args origVol m0 lastblk w.blks.length vfs ∧
+    w'.cons = w.cons ++ mincChain args origVol m0 lastblk w.blks.length vfs ∧
     iblk' = iblk + vfs.length ∧ idx' = idx ++ List.range' (iblk + 1) vfs.length :=
   Proofs.Grid.mincLevels_spec args blkname origVol origRock centre vfs m0 iblk idx hI hlast hok
+
+/-- **minc_spec.**  The operation itself: when `minc(volume_fractions, …, blocks)` returns (the
+    selected names being distinct names of blocks of the grid — automatically so for the default
+    selection "all blocks"), then with `f` = the fractions normalised by their sum:
+    the grid is consistent; one index row per selected name is returned; no block is renamed;
+    every unselected block and every boundary block (volume ≤ 0 or ≥ `atmos_volume`) keeps its volume;
+    and for every selected block `b` with `0 < V < atmos_volume` the row holds the positions of `b` and
+    of its new matrix blocks, `b` has volume `V·f₀`, matrix level `k` has `V·f_k`, and the new
+    connections form the chain `b → matrix 1 → … → innermost` with area `V·a[k]` and distances
+    `(d[k], d[k+1])` (`MincGroup` in Model/GridPhys.lean; `a`, `d` are the scipy numbers, parameters). -/
+theorem minc_spec {w : World} (hI : Grid.Inv w) (args : MincArgs) {w' : World} {cols : List (List Nat)}
+    (hok : minc w args = .ok (w', cols))
+    (hnd : (if args.blocks.isEmpty then w.blocklist.map w.bname else args.blocks).Nodup)
+    (hall : ∀ n ∈ (if args.blocks.isEmpty then w.blocklist.map w.bname else args.blocks), (dget w.block n).isSome) :
+    let vf := normFracs args.fracs
+    let sel := if args.blocks.isEmpty then w.blocklist.map w.bname else args.blocks
+    Grid.Inv w' ∧ cols.length = sel.length ∧
+    (∀ x, x < w.blks.length → (w'.bk x).name = (w.bk x).name) ∧
+    (∀ b ∈ w.blocklist, (w.bname b ∉ sel ∨ ¬ (0 < (w.bk b).volume ∧ (w.bk b).volume < args.atmosVolume)) →
+        (w'.bk b).volume = (w.bk b).volume) ∧
+    (∀ i (hi : i < sel.length) b, dget w.block sel[i] = some b →
+        0 < (w.bk b).volume → (w.bk b).volume < args.atmosVolume →
+        ∃ row, cols[i]? = some row ∧ MincGroup args vf w.blks.length w' (w.bk b).volume b row) :=
+  Proofs.Grid.minc_spec hI args hok hnd hall
+
+/-- the hypotheses of `minc_spec` hold for the default selection (all blocks) of a consistent grid -/
+theorem minc_spec_default_selection {w : World} (hI : Grid.Inv w) :
+    (w.blocklist.map w.bname).Nodup ∧ ∀ n ∈ w.blocklist.map w.bname, (dget w.block n).isSome := by
+  refine ⟨?_, ?_⟩
+  · exact Proofs.Grid.nodup_block_names hI
+  · intro n hn
+    obtain ⟨b, hb, rfl⟩ := List.mem_map.mp hn
+    rw [hI.bd_complete b hb]; rfl
+
+/-- **MINC keeps each original block's total volume**: the fracture block and its matrix blocks add
+    up to the volume the block had (fractions normalised by a non-zero sum) -/
+theorem minc_keeps_total_volume {args : MincArgs} {fracs : List Rat} {N0 : Nat} {w' : World} {V : Rat} {b : Nat} {row : List Nat}
+    (h : MincGroup args (normFracs fracs) N0 w' V b row) (hne : fracs ≠ []) (hs : sumRat fracs ≠ 0) :
+    ∃ base, (w'.bk b).volume +
+      sumRat ((List.range ((normFracs fracs).drop 1).length).map fun k => (w'.bk (base + k)).volume) = V :=
+  h.total hne hs
 
 /-- `minc` as a whole keeps the grid consistent, whatever its arguments (it raises on a duplicate
     matrix block name, leaving a consistent grid behind) -/
